@@ -1,10 +1,11 @@
 //! C11 harness: MEME-style score distribution (`lightmotif::pwm::dist`).
 //!
 //! `dist gen --seed S --n N [--tier t]` prints input lines
-//!     <id> kind=<k> M=<m> bgm=new|counts|uniform bg=<5 words> m=<row;row;...> pr=<f32 bits,...>
-//!          ps=<f64 bits,...> si=<idx:variant,...>
+//!     <id> kind=<k> M=<m> [abc=dna|protein] bgm=new|counts|uniform bg=<K words> m=<row;row;...>
+//!          pr=<f32 bits,...> ps=<f64 bits,...> si=<idx:variant,...>
+//!   abc: alphabet (default dna, K=5: A,C,T,G,N; protein, K=21: 20 amino acids + X);
 //!   bg: f32 bit patterns (bgm=new), counts (bgm=counts) or `-` (bgm=uniform);
-//!   m:  f32 bit patterns of the K=5 cells (A,C,T,G,N) of every row;
+//!   m:  f32 bit patterns of the K cells of every row (symbol index order, wildcard last);
 //!   pr: scores probed with `pvalue`; ps: p-values probed with `score`;
 //!   si: table indices i (taken modulo the table length) whose entry sf[i] (variant 0),
 //!       its f64 successor (1) or predecessor (-1) is probed with `score`.
@@ -15,9 +16,10 @@
 //!   ` => bgerr` when the background is rejected, ` => bgf=... BUILDPANIC` when the
 //!   construction of the distribution panics.
 
-use lightmotif::abc::{Background, Dna};
+use generic_array::GenericArray;
+use lightmotif::abc::{Alphabet, Background, Dna, Protein};
 use lightmotif::dense::DenseMatrix;
-use lightmotif::num::U5;
+use lightmotif::num::{Unsigned, U5};
 use lightmotif::pwm::{CountMatrix, ScoringMatrix};
 use lmh::*;
 
@@ -36,42 +38,39 @@ fn u64s(s: &str) -> Vec<u64> {
     s.split(',').map(|x| x.parse().unwrap()).collect()
 }
 
-fn make_background(mode: &str, bg: &str) -> Option<Background<Dna>> {
+fn make_background<A: Alphabet>(mode: &str, bg: &str) -> Option<Background<A>> {
+    let k = A::K::USIZE;
     match mode {
-        "uniform" => Some(Background::<Dna>::uniform()),
+        "uniform" => Some(Background::<A>::uniform()),
         "new" => {
             let v = u32s(bg);
-            let f: [f32; K] = [
-                f32::from_bits(v[0]),
-                f32::from_bits(v[1]),
-                f32::from_bits(v[2]),
-                f32::from_bits(v[3]),
-                f32::from_bits(v[4]),
-            ];
-            Background::<Dna>::new(f).ok()
+            assert_eq!(v.len(), k);
+            let mut f = GenericArray::<f32, A::K>::default();
+            for (j, &b) in v.iter().enumerate() {
+                f[j] = f32::from_bits(b);
+            }
+            Background::<A>::new(f).ok()
         }
         "counts" => {
             let v = u64s(bg);
-            let c: [usize; K] = [v[0] as usize, v[1] as usize, v[2] as usize, v[3] as usize, v[4] as usize];
-            Background::<Dna>::from_counts(&c.into()).ok()
+            assert_eq!(v.len(), k);
+            let mut c = GenericArray::<usize, A::K>::default();
+            for (j, &b) in v.iter().enumerate() {
+                c[j] = b as usize;
+            }
+            Background::<A>::from_counts(&c).ok()
         }
         _ => panic!("bad background mode {}", mode),
     }
 }
 
-fn parse_matrix(s: &str) -> Vec<[f32; K]> {
+fn parse_matrix(s: &str, k: usize) -> Vec<Vec<f32>> {
     s.split(';')
         .filter(|r| !r.is_empty())
         .map(|r| {
             let v = u32s(r);
-            assert_eq!(v.len(), K);
-            [
-                f32::from_bits(v[0]),
-                f32::from_bits(v[1]),
-                f32::from_bits(v[2]),
-                f32::from_bits(v[3]),
-                f32::from_bits(v[4]),
-            ]
+            assert_eq!(v.len(), k);
+            v.iter().map(|&b| f32::from_bits(b)).collect()
         })
         .collect()
 }
@@ -126,14 +125,21 @@ fn next_down32(x: f32) -> f32 {
 
 fn run_case(line: &str) -> String {
     let (_id, f) = fields(line);
-    let bg = match make_background(&f["bgm"], &f["bg"]) {
+    match f.get("abc").map(|s| s.as_str()) {
+        Some("protein") => run_case_a::<Protein>(&f),
+        _ => run_case_a::<Dna>(&f),
+    }
+}
+
+fn run_case_a<A: Alphabet>(f: &std::collections::HashMap<String, String>) -> String {
+    let bg = match make_background::<A>(&f["bgm"], &f["bg"]) {
         Some(b) => b,
         None => return "bgerr".to_string(),
     };
     let bgf: Vec<String> = bg.frequencies().iter().map(|x| x.to_bits().to_string()).collect();
-    let rows = parse_matrix(&f["m"]);
-    let data = DenseMatrix::<f32, U5>::from_rows(rows.iter());
-    let pssm = ScoringMatrix::<Dna>::new(bg, data);
+    let rows = parse_matrix(&f["m"], A::K::USIZE);
+    let data = DenseMatrix::<f32, A::K>::from_rows(rows.iter());
+    let pssm = ScoringMatrix::<A>::new(bg, data);
     let dist = match no_panic(|| pssm.to_score_distribution()) {
         Some(d) => d,
         None => return format!("bgf={} BUILDPANIC", bgf.join(",")),
@@ -300,7 +306,7 @@ fn gen_background(rng: &mut Rng, wildcard_mass: bool) -> Bg {
 
 const KINDS: [&str; 16] = [
     "rand", "quant", "counts", "wfin", "rand", "quant", "counts", "const", "narrow", "wide", "large", "wmass",
-    "counts", "quant", "huge", "special",
+    "counts", "protein", "huge", "special",
 ];
 
 fn gen_matrix(rng: &mut Rng, kind: &str, m: usize, bg: &Bg) -> Vec<[f32; K]> {
@@ -459,7 +465,7 @@ fn gen_matrix(rng: &mut Rng, kind: &str, m: usize, bg: &Bg) -> Vec<[f32; K]> {
 }
 
 /// the code's own discretisation parameters, recomputed only to place the probes
-fn params(rows: &[[f32; K]]) -> Option<(f64, f64)> {
+fn params(rows: &[Vec<f32>]) -> Option<(f64, f64)> {
     let cells: Vec<f64> = rows
         .iter()
         .flat_map(|r| r.iter())
@@ -475,31 +481,89 @@ fn params(rows: &[[f32; K]]) -> Option<(f64, f64)> {
         small = large - 1.0;
     }
     let offset = small.floor();
-    let scale = (1000.0 / (large - offset)).floor();
+    let mut scale = (1000.0 / (large - offset)).floor();
+    if scale == 0.0 {
+        scale = 1000.0 / (large - offset);
+    }
     Some((offset, scale))
+}
+
+/// a protein case: K = 21 (20 amino acids + X), width 1..3 so that all 20^M words are enumerable
+fn gen_case_protein(rng: &mut Rng, id: usize, tier: &str) -> String {
+    const KP: usize = 21;
+    let m = *rng.pick(&[1usize, 2, 2, 3]);
+    let wmass = rng.chance(1, 8);
+    let (mode, text, wild_mass): (&str, String, bool) = if wmass {
+        let w = dyadic_weights(rng, KP, 1024, false);
+        ("new", w.iter().map(|x| x.to_bits().to_string()).collect::<Vec<_>>().join(","), true)
+    } else if rng.chance(1, 2) {
+        ("uniform", "-".to_string(), false)
+    } else {
+        let mut w = dyadic_weights(rng, KP - 1, 1024, false);
+        w.push(0.0);
+        ("new", w.iter().map(|x| x.to_bits().to_string()).collect::<Vec<_>>().join(","), false)
+    };
+    let quant = rng.chance(1, 2);
+    let wfin = rng.chance(1, 3);
+    let mut rows: Vec<Vec<f32>> = vec![];
+    for _ in 0..m {
+        let mut r = vec![NINF; KP];
+        for c in r.iter_mut().take(KP - 1) {
+            *c = if quant { (rng.range(-16, 8) as f32) * 0.5 } else { (unit(rng) * 10.0 - 7.0) as f32 };
+        }
+        if wfin {
+            r[KP - 1] = if quant { (rng.range(-16, 8) as f32) * 0.5 } else { (unit(rng) * 10.0 - 7.0) as f32 };
+        }
+        rows.push(r);
+    }
+    let nsym = if wfin && wild_mass { KP } else { KP - 1 };
+    finish_case(rng, id, "protein", Some("protein"), mode, &text, &rows, nsym, 20f64, tier)
 }
 
 fn gen_case(rng: &mut Rng, id: usize, tier: &str) -> String {
     let kind = KINDS[id % KINDS.len()];
+    if kind == "protein" {
+        return gen_case_protein(rng, id, tier);
+    }
     let wmass = kind == "wmass";
     let bg = gen_background(rng, wmass);
     let cap = if wmass { 6 } else { 8 };
     let m = if kind == "large" { 9 + rng.below(8) as usize } else { gen_m(rng, cap) };
     // `large`: too wide for the exact enumeration (structural checks and bit-exact replay only)
     let mkind = if kind == "large" { *rng.pick(&["rand", "quant", "counts"]) } else { kind };
-    let rows = gen_matrix(rng, mkind, m, &bg);
-    let (offset, scale) = params(&rows).unwrap_or((0.0, 1.0));
+    let rows5 = gen_matrix(rng, mkind, m, &bg);
+    let rows: Vec<Vec<f32>> = rows5.iter().map(|r| r.to_vec()).collect();
+    // scores of random words (non-wildcard symbols), the minimum and the maximum word
+    let nsym = if rows.iter().all(|r| r[4].is_finite()) && bg.freqs[4] > 0.0 { 5 } else { 4 };
+    finish_case(rng, id, kind, None, bg.mode, &bg.text, &rows, nsym, 4f64, tier)
+}
+
+/// probes (scores, p-values, table indices) for a matrix, and the input line
+#[allow(clippy::too_many_arguments)]
+fn finish_case(
+    rng: &mut Rng,
+    id: usize,
+    kind: &str,
+    abc: Option<&str>,
+    bgmode: &str,
+    bgtext: &str,
+    rows: &[Vec<f32>],
+    nsym: usize,
+    base: f64,
+    tier: &str,
+) -> String {
+    let m = rows.len();
+    let k = rows[0].len();
+    let (offset, scale) = params(rows).unwrap_or((0.0, 1.0));
     let step = if scale > 0.0 && scale.is_finite() { 1.0 / scale } else { 1.0 };
     let d = (m as f64 / 2.0 + 1.0) * step;
 
-    // scores of random words (non-wildcard symbols), the minimum and the maximum word
-    let nsym = if rows.iter().all(|r| r[4].is_finite()) && bg.freqs[4] > 0.0 { 5 } else { 4 };
     let mut words: Vec<Vec<usize>> = vec![];
-    words.push(rows.iter().map(|r| (0..4).min_by(|&a, &b| r[a].partial_cmp(&r[b]).unwrap_or(std::cmp::Ordering::Equal)).unwrap()).collect());
-    words.push(rows.iter().map(|r| (0..4).max_by(|&a, &b| r[a].partial_cmp(&r[b]).unwrap_or(std::cmp::Ordering::Equal)).unwrap()).collect());
+    words.push(rows.iter().map(|r| (0..k - 1).min_by(|&a, &b| r[a].partial_cmp(&r[b]).unwrap_or(std::cmp::Ordering::Equal)).unwrap()).collect());
+    words.push(rows.iter().map(|r| (0..k - 1).max_by(|&a, &b| r[a].partial_cmp(&r[b]).unwrap_or(std::cmp::Ordering::Equal)).unwrap()).collect());
     let nw = if tier == "thorough" { 6 } else { 5 };
     for _ in 0..nw {
-        words.push((0..m).map(|_| rng.below(nsym) as usize).collect());
+        words.push((0..m).map(|_| rng.below(nsym as u64) as usize).collect());
     }
     let mut pr: Vec<f32> = vec![];
     let mut si: Vec<String> = vec![];
@@ -566,7 +630,7 @@ fn gen_case(rng: &mut Rng, id: usize, tier: &str) -> String {
     for _ in 0..4 {
         ps.push(unit(rng));
     }
-    let words4 = 4f64.powi(m as i32);
+    let words4 = base.powi(m as i32);
     for _ in 0..4 {
         let j = 1 + rng.below(words4 as u64);
         ps.push(j as f64 / words4);
@@ -582,12 +646,16 @@ fn gen_case(rng: &mut Rng, id: usize, tier: &str) -> String {
         .map(|r| r.iter().map(|x| x.to_bits().to_string()).collect::<Vec<_>>().join(","))
         .collect();
     format!(
-        "g{} kind={} M={} bgm={} bg={} m={} pr={} ps={} si={}",
+        "g{} kind={} M={}{} bgm={} bg={} m={} pr={} ps={} si={}",
         id,
         kind,
         m,
-        bg.mode,
-        bg.text,
+        match abc {
+            Some(a) => format!(" abc={}", a),
+            None => String::new(),
+        },
+        bgmode,
+        bgtext,
         mtxt.join(";"),
         pr.iter().map(|x| x.to_bits().to_string()).collect::<Vec<_>>().join(","),
         ps.iter().map(|x| x.to_bits().to_string()).collect::<Vec<_>>().join(","),
